@@ -343,7 +343,9 @@ fn worker(args: &Args, shard: &str) {
                         for torn in [false, true] {
                             for same_session in [true, false] {
                                 let conts: Vec<Vec<Set>> = if thorough {
-                                    sets.iter().map(|c| vec![c.clone()]).chain(sets.iter().take(9).map(|c| vec![b.clone(), c.clone()])).collect()
+                                    // b, a, every 9th set, and three two-step continuations (every set as a continuation would be
+                                    // 243^2 x 252 x ~32 fault points: hours)
+                                    [vec![b.clone()], vec![a.clone()]].into_iter().chain(sets.iter().step_by(9).map(|c| vec![c.clone()])).chain(sets.iter().take(3).map(|c| vec![b.clone(), c.clone()])).collect()
                                 } else {
                                     let mut v = vec![vec![b.clone()], vec![a.clone()]];
                                     v.extend(sets.iter().step_by(7).map(|c| vec![c.clone()]));
@@ -452,7 +454,7 @@ fn main() {
             }
             Tier::Thorough => {
                 push("faults", &five, 81);
-                plan = vec!["faults: 243^2 plans x every op index x {error, torn} x {same session, fresh process} x 252 continuations; + first-compile plans"];
+                plan = vec!["faults: 243^2 plans x every op index x {error, torn} x {same session, fresh process} x 32 continuations (b, a, every 9th set, three two-step ones); + first-compile plans"];
             }
         }
     }
